@@ -543,22 +543,24 @@ NOT_APPLICABLE: Dict[str, str] = {}
 
 # Clauses added after the first build round (DESIGN.md sections 12-14), appended to the explanations above.
 EXTRA_EXPLANATION = {
-    "C01": " (5) align_shape rebuilds coefficients with a numpy broadcast idiom; the scalar power starts from the constant one in the base's dtype and multiplies exactly n times; a result whose terms all cancel keeps the shape and dtype of its inputs.",
+    "C01": " (5) align_shape rebuilds coefficients with a numpy broadcast idiom; the scalar power starts from the constant one in the base's dtype and multiplies exactly n times; a result whose terms all cancel keeps the shape and dtype of its inputs. Name / exponent look-ups are by equality, never by bisection on a key-sorted sequence (R-BISECT); a dtype= keyword on data computed from both operands is not one operand's dtype (R-DTYPEKW); no return path of a wrapper re-wraps operand data without names= next to paths that keep the names (R-NAMEPATHS).",
     "C02": " The indeterminates handed to the evaluation loop (iteration over poly.indeterminants) keep the polynomial's names; a non-constant result is re-aligned by name.",
-    "C03": " Exponent rows taken from an alignment result are paired with the names of that result (or of an operand of that alignment); the fall-back term of the clean-up has the shape and dtype of its input.",
-    "C04": " align_shape rebuilds coefficients with a numpy broadcast idiom (resize/tile/reshape are known-wrong); the option state the alignment reads (default_varname, retain_*) cannot be left half-set: set_options validates every key before the first write and global_options restores in finally.",
-    "C06": " gradient/hessian join the partials through constructors that receive the polynomial's own names.",
-    "C07": " The term walk iterates the glexsort permutation on every path (no storage-order shortcut); maximum/minimum select through where() in a dtype depending on both operands.",
-    "C08": " A function that REDUCE_MAPPINGS/ACCUMULATE_MAPPINGS map to is entered in the table __array_ufunc__ consults; functions that also exist as ndarray methods keep the names like the method does; a wrapper that calls itself recursively forwards every shared parameter.",
-    "C10": " The reduction methods of ndpoly forward every parameter to the function spelling; a wrapper that calls itself recursively forwards every shared parameter.",
-    "C11": " sortable_proxy (behind argmax/argmin/amax/amin) writes coefficient values into its integer proxy only as ranks; amax/amin fetch the element of every reduced rank through argsort(proxy.ravel()) (a boolean-mask selection re-ordered by the ranks alone permutes the result as soon as an axis is given).",
+    "C03": " Exponent rows taken from an alignment result are paired with the names of that result (or of an operand of that alignment); the fall-back term of the clean-up has the shape and dtype of its input. ndpoly.coefficients / ndpoly.exponents are computed from all of self.keys and todict keeps every term with the coefficient arrays themselves (R-TERMS); no character-class predicate is applied to storage keys (R-KEYCLASS); re-ordered names and their exponent columns are permuted together (R-COLPERM); flattening keeps numpy's logical element order (R-MEMORDER); the retain flags are resolved from the options before they decide a branch (O12).",
+    "C04": " align_shape rebuilds coefficients with a numpy broadcast idiom (resize/tile/reshape are known-wrong); the option state the alignment reads (default_varname, retain_*) cannot be left half-set: set_options validates every key before the first write and global_options restores in finally. The term accessors alignment reads range over every key (R-TERMS, R-KEYCLASS); the cast in front of the raw C writer yields an array of its own, so read-only inputs can be aligned (R-CAST).",
+    "C06": " gradient/hessian join the partials through constructors that receive the polynomial's own names. remove_redundant_names (used to identify a differentiation variable given as a polynomial) switches one name on exactly when none is used (tri-state R-CLEAN).",
+    "C07": " The term walk iterates the glexsort permutation on every path (no storage-order shortcut); maximum/minimum select through where() in a dtype depending on both operands. A vectorised equality fold does not pack both operands' columns into one array (common-dtype promotion before comparing).",
+    "C08": " A function that REDUCE_MAPPINGS/ACCUMULATE_MAPPINGS map to is entered in the table __array_ufunc__ consults; functions that also exist as ndarray methods keep the names like the method does; a wrapper that calls itself recursively forwards every shared parameter. Positional arguments bind to the same parameters through numpy and through numpoly: every parameter a wrapper shares by name with the numpy signature sits at numpy's position (R-SIGPOS); return paths of one wrapper agree on names (R-NAMEPATHS).",
+    "C10": " The reduction methods of ndpoly forward every parameter to the function spelling; a wrapper that calls itself recursively forwards every shared parameter. Shared parameters sit at numpy's positions with numpy's defaults (R-SIGPOS, R-DEFAULTS); flattened reductions walk the logical element order (R-MEMORDER); a dtype= keyword on a product of two operands is not one operand's dtype (R-DTYPEKW).",
+    "C11": " sortable_proxy (behind argmax/argmin/amax/amin) writes coefficient values into its integer proxy only as ranks; amax/amin fetch the element of every reduced rank through argsort(proxy.ravel()) (a boolean-mask selection re-ordered by the ranks alone permutes the result as soon as an axis is given). amax/amin fetch the element of every reduced rank through argsort(proxy.ravel()) (R-RANKSEL); shared parameters sit at numpy's positions with numpy's defaults (R-SIGPOS, R-DEFAULTS).",
     "C12": " A result whose terms were all filtered away keeps the dtype of its inputs; the constant one that seeds a power carries the base's dtype.",
-    "C13": " reshape (through which loadtxt restores the shape) re-wraps the storage with the polynomial's names.",
-    "C14": " Library code outside option.py that calls set_options itself restores every key it changed from a snapshot on every exit (O9), and no generator yields inside 'with global_options' (O10).",
-    "C16": " to_string fills precision / suppress_small from the numpy print option of the same meaning.",
+    "C13": " reshape (through which loadtxt restores the shape) re-wraps the storage with the polynomial's names. savetxt / loadtxt keep numpy's defaults for shared parameters (R-DEFAULTS) and the logical element order (R-MEMORDER); the retain flag __reduce__ does not pass is resolved from the options before use (O12).",
+    "C14": " Library code outside option.py that calls set_options itself restores every key it changed from a snapshot on every exit (O9), and no generator yields inside 'with global_options' (O10). O11: on entry global_options applies exactly the caller's options (nothing merged in); O3 also checks the polarity of the membership guard (KeyError on the edge 'key not in table').",
+    "C16": " to_string fills precision / suppress_small from the numpy print option of the same meaning. The text of a coefficient is str() of the coefficient element itself - no rounding / casting function in between.",
     "C18": " lexsort receives the keys promoted to 2-D and, with reverse, their rows flipped after that promotion; bindex's inverted ordering reverses rows only; cross_truncate divides by the bound only after negative and zero components were excluded; start/stop/dimensions/cross_truncation equal to 0 are never mistaken for 'omitted'.",
-    "C19": " tonumpy returns the coefficient of the all-zero exponent row (never a fixed position); sortable_proxy writes coefficients into the integer proxy only as ranks; set_dimensions keeps a term iff none of the dropped exponent columns is non-zero and filters coefficients with the same mask; isconstant is False exactly for a non-constant term with a non-zero coefficient; the graded sort is stable.",
-    "C20": " Exponent matrices are never created with a coefficient dtype nor scaled by a run-time value while still uint32; derivative looks the column index up in the names of the polynomial whose exponents it indexes.",
+    "C19": " tonumpy returns the coefficient of the all-zero exponent row (never a fixed position); sortable_proxy writes coefficients into the integer proxy only as ranks; set_dimensions keeps a term iff none of the dropped exponent columns is non-zero and filters coefficients with the same mask; isconstant is False exactly for a non-constant term with a non-zero coefficient; the graded sort is stable. sortable_proxy returns the double-argsort permutation (not dense ranks); set_dimensions permutes names and exponent columns together (R-COLPERM); todict keeps every term unconverted (R-TERMS).",
+    "C20": " Exponent matrices are never created with a coefficient dtype nor scaled by a run-time value while still uint32; derivative looks the column index up in the names of the polynomial whose exponents it indexes. The key codec is only the offset: no other literal shift of code points in the functions that encode or decode (R-CODEC); no character-class predicate on keys (R-KEYCLASS); savetxt keeps numpy's default encoding (R-DEFAULTS).",
+    "C09": " Shared parameters sit at numpy's positions and have numpy's literal defaults (R-SIGPOS, R-DEFAULTS; numpoly.repeat's axis=0 is the recorded known finding F14); no memory-order flattening (R-MEMORDER).",
+    "C15": " O12: an option-defaulted retain flag is never used while it may still be None; no option setting lets postprocess_attributes skip its validations (R-GUARDS).",
 }
 NOT_DECIDED_OVERRIDE = {
     "C14": "nothing of the statement is left undecided for option.py itself; for the rest of the library only direct set_options calls and generator suspension inside a with-block are covered",
